@@ -18,7 +18,7 @@ import (
 func init() {
 	register(&Check{
 		ID: "C13", Level: "exploration", QuickSecs: 200, ThoroughSecs: 1800,
-		Rule:        "inputs to the real main() (hook main mode; stdin/file and stdout/-o alternate): (a) every text printed from the reference ASTs over ALL expression kinds (incl. throw, recovery, code predicates, state blocks, undefined and unused rules) up to 3 nodes x all 32 combinations of -optimize-parser -optimize-grammar -optimize-basic-latin -support-left-recursion -cache, plus -x, -nolint and valid/invalid -alternate-entrypoints; (b) every single-token edit (delete, duplicate, replace by each of 34 tokens) of a 40-text corpus covering the whole syntax x 2 flag sets (thorough 4); (c) EVERY byte string up to length 2 over all 256 bytes and up to length 3 over the 22 grammar-significant bytes (thorough: 3 and 4) x 4 flag sets. Oracle: main() returns (10 s watchdog, re-run before believed), no Go panic escapes, exit 0 => stdout is a complete Go file (go/parser accepts it) and stderr is empty, exit != 0 => a diagnostic on stderr, a text the front-end rejects never exits 0, -x never writes a parser. A stratified subset is replayed through the real pigeon binary (same exit status, no goroutine trace). Non-trivial = texts that are accepted (exit 0) or rejected by the builder rather than the front-end.",
+		Rule:        "inputs to the real main() (hook main mode; stdin/file and stdout/-o alternate): (a) every text printed from the reference ASTs over ALL expression kinds (incl. throw, recovery, code predicates, state blocks, undefined and unused rules) up to 3 nodes x all 32 combinations of -optimize-parser -optimize-grammar -optimize-basic-latin -support-left-recursion -cache, plus -x, -nolint and valid/invalid -alternate-entrypoints; (d) 3-rule reference graphs with mutually dependent nullability (A <- w(B) / w(C) / end, B and C aliases of A; 3750 grammars x 4 flag sets) through the analysis and builder; (b) every single-token edit (delete, duplicate, replace by each of 34 tokens) of a 40-text corpus covering the whole syntax x 2 flag sets (thorough 4); (c) EVERY byte string up to length 2 over all 256 bytes and up to length 3 over the 22 grammar-significant bytes (thorough: 3 and 4) x 4 flag sets. Oracle: main() returns (10 s watchdog, re-run before believed), no Go panic escapes, exit 0 => stdout is a complete Go file (go/parser accepts it) and stderr is empty, exit != 0 => a diagnostic on stderr, a text the front-end rejects never exits 0, -x never writes a parser. A stratified subset is replayed through the real pigeon binary (same exit status, no goroutine trace). Non-trivial = texts that are accepted (exit 0) or rejected by the builder rather than the front-end.",
 		Assumptions: []string{"exit() mocked inside the hook server; a sample is replayed through the real binary", "no wall-clock oracle: only a hang >10 s is reported"},
 		Run:         runC13,
 	})
@@ -255,6 +255,50 @@ func runC13(c *ShardCtx) {
 					x.call(text, []string{"-optimize-grammar", "-alternate-entrypoints", "B,Unused"}, "family a")
 					x.call(text, []string{"-alternate-entrypoints", "B,Nope"}, "family a")
 					x.call(text, []string{"-optimize-grammar", "-alternate-entrypoints", ",B,"}, "family a")
+				}
+			}
+		}
+	}
+	// (d) rule-reference graphs whose nullability is mutually dependent (the analysis iterates to
+	// a fixpoint: it has to terminate): A <- w(B) / w(C) / end ; B, C <- aliases of A
+	{
+		lit := peg.Lit
+		wraps := []func(r string) *peg.Expr{
+			func(r string) *peg.Expr { return peg.Ref(r) }, func(r string) *peg.Expr { return peg.Seq(lit("a"), peg.Ref(r), lit("b")) },
+			func(r string) *peg.Expr { return peg.Seq(lit("a"), peg.Ref(r)) }, func(r string) *peg.Expr { return peg.Seq(peg.Ref(r), lit("b")) },
+			func(r string) *peg.Expr { return peg.Opt(peg.Ref(r)) },
+		}
+		ends := []func() *peg.Expr{func() *peg.Expr { return lit("") }, func() *peg.Expr { return lit("a") }, func() *peg.Expr { return peg.Opt(lit("a")) }}
+		aliases := []func() *peg.Expr{
+			func() *peg.Expr { return peg.Ref("A") }, func() *peg.Expr { return peg.Choice(peg.Ref("A"), lit("")) }, func() *peg.Expr { return peg.Seq(lit("a"), peg.Ref("A")) },
+			func() *peg.Expr { return peg.Seq(peg.Ref("A"), peg.Ref("A")) }, func() *peg.Expr { return peg.Star(peg.Ref("A")) },
+		}
+		for _, w1 := range wraps {
+			for _, w2 := range wraps {
+				for _, e := range ends {
+					for _, a1 := range aliases {
+						for _, a2 := range aliases {
+							idx++
+							if !c.Mine(idx) {
+								continue
+							}
+							if c.Expired("family d") {
+								return
+							}
+							for _, order := range []int{0, 1} {
+								alts := []*peg.Expr{w1("B"), w2("C"), e()}
+								if order == 1 {
+									alts = []*peg.Expr{e(), w1("B"), w2("C")}
+								}
+								g := &peg.Grammar{Rules: []*peg.Rule{{Name: "A", Expr: peg.Choice(alts...)}, {Name: "B", Expr: a1()}, {Name: "C", Expr: a2()}}}
+								text := []byte(peg.Print(g, &peg.PrintOpts{Package: "p"}))
+								c.Res.Grammars++
+								for _, m := range []int{0, 8, 10, 31} {
+									x.build(text, m)
+								}
+							}
+						}
+					}
 				}
 			}
 		}
